@@ -9,7 +9,7 @@ Tr == JsonDeserialize(IOEnv.TRACE_FILE)
 
 CONSTANTS Judge,
           Dev_C12_InputMomentum, Dev_C12_ScaleOne, Dev_C10_GroupSizeLost, Dev_C10_LayerNormTarget, Dev_C10_ScaleDtype,
-          Dev_C09_DeepCopyQBits, Dev_C08_ScaleDtype, Dev_C05_CopyPlain, Dev_C07_F16Float8Act, Dev_C08_LayerNormNoAffine
+          Dev_C09_DeepCopyQBits, Dev_C08_ScaleDtype, Dev_C05_CopyPlain, Dev_C07_F16Float8Act, Dev_C08_LayerNormNoAffine, Dev_C07_IntMMK1
 
 VARIABLES tid, l, dev,
           open,      \* number of calibration contexts currently open
@@ -257,6 +257,12 @@ DevSig(d, e) ==
     [] d \in {"Dev_C10_GroupSizeLost", "Dev_C10_LayerNormTarget", "Dev_C10_ScaleDtype"} -> Judge = "C10" /\ C10DevSig(d, e)
     [] d = "Dev_C08_ScaleDtype" -> Judge \in {"C08", "C11"} /\ e.act = "Forward" /\ e.outcome = "ok"
                                    /\ \A k \in 1..Len(e.recipes) : RecipeOK(e.recipes[k]) \/ RecipeDtypeDev(e.recipes[k])
+    [] d = "Dev_C07_IntMMK1" ->
+         /\ e.act = "Forward" /\ e.outcome = "ok"
+         /\ \A k \in 1..Len(e.recipes) : RecipeOK(e.recipes[k]) \/ (e.recipes[k].kind = "Linear" /\ e.recipes[k].K = 1 /\ e.recipes[k].wq = "qint8" /\ e.recipes[k].aq = "qint8" /\ e.recipes[k].shape_ok)
+    [] d = "Dev_C07_IntMMK1" ->
+         /\ e.act = "Forward" /\ e.outcome = "ok"
+         /\ \A k \in 1..Len(e.recipes) : RecipeOK(e.recipes[k]) \/ (e.recipes[k].kind = "Linear" /\ e.recipes[k].K = 1 /\ e.recipes[k].wq = "qint8" /\ e.recipes[k].aq = "qint8" /\ e.recipes[k].shape_ok)
     [] d = "Dev_C08_LayerNormNoAffine" ->
          /\ e.act = "Quantize" /\ e.outcome = "AttributeError" /\ e.args.aq # "none"
          /\ \E i \in 1..Len(e.mods) : e.mods[i].kind = "LayerNorm" /\ e.mods[i].hyper.elementwise_affine = "False"
@@ -264,10 +270,11 @@ DevSig(d, e) ==
                                   /\ e.outcome \in {"AttributeError", "AssertionError"}
                                   /\ \E i \in 1..Len(e.mods) : e.mods[i].kind = "Conv2d" /\ e.mods[i].hyper.padding_mode = "circular" /\ e.mods[i].aq # "none"
     [] OTHER -> FALSE
-DevOn == {d \in {"Dev_C08_LayerNormNoAffine", "Dev_C07_F16Float8Act", "Dev_C12_InputMomentum", "Dev_C12_ScaleOne", "Dev_C10_GroupSizeLost", "Dev_C10_LayerNormTarget", "Dev_C10_ScaleDtype",
+DevOn == {d \in {"Dev_C07_IntMMK1", "Dev_C08_LayerNormNoAffine", "Dev_C07_F16Float8Act", "Dev_C12_InputMomentum", "Dev_C12_ScaleOne", "Dev_C10_GroupSizeLost", "Dev_C10_LayerNormTarget", "Dev_C10_ScaleDtype",
                  "Dev_C09_DeepCopyQBits", "Dev_C08_ScaleDtype", "Dev_C05_CopyPlain"} :
             CASE d = "Dev_C12_InputMomentum" -> Dev_C12_InputMomentum [] d = "Dev_C12_ScaleOne" -> Dev_C12_ScaleOne
               [] d = "Dev_C07_F16Float8Act" -> Dev_C07_F16Float8Act
+              [] d = "Dev_C07_IntMMK1" -> Dev_C07_IntMMK1
               [] d = "Dev_C08_LayerNormNoAffine" -> Dev_C08_LayerNormNoAffine
               [] d = "Dev_C10_GroupSizeLost" -> Dev_C10_GroupSizeLost [] d = "Dev_C10_LayerNormTarget" -> Dev_C10_LayerNormTarget
               [] d = "Dev_C10_ScaleDtype" -> Dev_C10_ScaleDtype [] d = "Dev_C09_DeepCopyQBits" -> Dev_C09_DeepCopyQBits
